@@ -764,4 +764,190 @@ theorem decode_total (b : List Nat) :
   | ok x => exact Or.inl ⟨x.1, x.2, rfl⟩
   | error e => cases e <;> simp
 
+/-! ### genuine packets are accepted: the receiver's call is exactly the sealer's call -/
+
+/-- the exact view the datagram decoder returns for an encoded packet -/
+theorem decodeDatagram_encode (i : DatagramIn) (wf : DatagramWF i) (rest : List Nat) :
+    decodeDatagram (encodeDatagram i ++ rest)
+      = .ok (⟨datagramTagOf i, i.creds, 0, i.sourceControlPort, i.pn.getD 0, i.nect, encDatagramHeader i, i.appHeader,
+              i.controlData, i.payload, i.authTag⟩, rest) := by
+  obtain ⟨s1, s2, s3, s4⟩ := header_slices (encDatagramFixed i) i.appHeader i.controlData
+    (i.payload ++ (i.authTag ++ rest))
+  have hcd : (if i.nect.isSome then i.controlData else []) = i.controlData := by
+    cases hn : i.nect with
+    | none => simp [wf.cdOnlyAck hn]
+    | some x => simp
+  have hh : encDatagramHeader i = encDatagramFixed i ++ i.appHeader ++ i.controlData := by
+    unfold encDatagramHeader; rw [hcd]
+  have hb : encodeDatagram i ++ rest
+      = encDatagramFixed i ++ (i.appHeader ++ (i.controlData ++ (i.payload ++ (i.authTag ++ rest)))) := by
+    simp [encodeDatagram, hh]
+  unfold decodeDatagram
+  rw [hb, peekDatagram_enc i wf]
+  simp only [bind, Except.bind, pure, Except.pure, pSkip_append _ _ _ rfl, s1, s2, s3, s4,
+    pBytes_append _ _ _ rfl, pBytes_append _ _ _ wf.tag, hh]
+
+/-- a datagram produced by the encoder and sealed is accepted by the receiver (awslc keys: key phase zero) -/
+theorem genuine_accepted_datagram (i : DatagramIn) (wf : DatagramWF i) (hkp : i.keyPhase = false) :
+    datagramCallOfWire (encodeDatagram i) = some (datagramSealCall i) := by
+  have h := decodeDatagram_encode i wf []
+  rw [List.append_nil] at h
+  have hs := datagramTagBits_spec i.pn.isSome (decide (i.appHeader.length > 0)) i.nect.isSome i.keyPhase
+  rw [← datagramTagOf_eq] at hs
+  unfold datagramCallOfWire
+  rw [h]
+  simp only [datagramOpenCall, hs.2.2.2.2.2, hkp, Bool.false_eq_true, if_false, Except.toOption, datagramSealCall]
+
+theorem decodeControl_encode (i : ControlIn) (wf : ControlWF i) (rest : List Nat) :
+    decodeControl (encodeControl i ++ rest)
+      = .ok (⟨controlTagOf i, i.creds, 0, i.sourceQueueId, i.streamId, i.pn, encControlHeader i, i.appHeader,
+              i.controlData, i.authTag⟩, rest) := by
+  obtain ⟨s1, s2, s3, s4⟩ := header_slices (encControlFixed i) i.appHeader i.controlData (i.authTag ++ rest)
+  have hb : encodeControl i ++ rest
+      = encControlFixed i ++ (i.appHeader ++ (i.controlData ++ (i.authTag ++ rest))) := by
+    simp [encodeControl, encControlHeader]
+  have t1 : (i.authTag ++ rest).take tagLen = i.authTag := by rw [← wf.tag, take_append_len]
+  have t2 : (i.authTag ++ rest).drop tagLen = rest := by rw [← wf.tag, drop_append_len]
+  unfold decodeControl
+  rw [hb, peekControl_enc i wf]
+  simp only [bind, Except.bind, pure, Except.pure, pSkip_append _ _ _ rfl, pSkip_append _ _ _ wf.tag, s1, s2, s3, s4,
+    t1, t2, encControlHeader]
+
+theorem genuine_accepted_control (i : ControlIn) (wf : ControlWF i) :
+    controlCallOfWire (encodeControl i) = some (controlSealCall i) := by
+  have h := decodeControl_encode i wf []
+  rw [List.append_nil] at h
+  unfold controlCallOfWire
+  rw [h]
+  rfl
+
+theorem genuine_accepted_secret (i : SecretIn) (wf : SecretWF i) :
+    secretCallOfWire i.kind (encodeSecret i) = some (secretSealCall i) := by
+  obtain ⟨v, hd, hi, hh⟩ := roundtrip_secret i wf []
+  rw [List.append_nil] at hd
+  unfold secretCallOfWire
+  rw [hd]
+  have hk : v.kind = i.kind := by rw [← hi]; rfl
+  have hc : v.credId = i.credId := by rw [← hi]; rfl
+  have ht : v.authTag = i.authTag := by rw [← hi]; rfl
+  simp only [secretOpenCall, secretSealCall, hk, hh, hc, ht]
+
+theorem decodeStream_encode (i : StreamIn) (wf : StreamWF i) (rest : List Nat) :
+    decodeStream (encodeStream i ++ rest)
+      = .ok (⟨streamTagOf i, i.creds, 0, i.sourceQueueId, i.streamId, i.pn, i.pn + i.relOffset, rpnOffsetOf i, i.nect,
+              i.offset, i.finalOffset, encStreamHeader i, i.appHeader, i.controlData, i.payload, i.authTag⟩, rest) := by
+  obtain ⟨s1, s2, s3, s4⟩ := header_slices (encStreamFixed i) i.appHeader i.controlData
+    (i.payload ++ (i.authTag ++ rest))
+  have hb : encodeStream i ++ rest
+      = encStreamFixed i ++ (i.appHeader ++ (i.controlData ++ (i.payload ++ (i.authTag ++ rest)))) := by
+    simp [encodeStream, encStreamHeader]
+  have t1 : (i.authTag ++ rest).take tagLen = i.authTag := by rw [← wf.tag, take_append_len]
+  have t2 : (i.authTag ++ rest).drop tagLen = rest := by rw [← wf.tag, drop_append_len]
+  unfold decodeStream
+  rw [hb, peekStream_enc i wf]
+  simp only [bind, Except.bind, pure, Except.pure, pSkip_append _ _ _ rfl, pSkip_append _ _ _ wf.tag, s1, s2, s3, s4,
+    take_append_len, drop_append_len, t1, t2, encStreamHeader]
+
+/-- application packets (`encode`) and probes (`probe`: recovery space, empty payload) that were not
+    retransmitted are accepted -/
+theorem genuine_accepted_stream (i : StreamIn) (wf : StreamWF i) (hkp : i.keyPhase = false) (hrel : i.relOffset = 0)
+    (hprobe : i.recovery = true → i.payload = []) :
+    streamCallOfWire false (encodeStream i) = some (streamSealCall i none) := by
+  have h := decodeStream_encode i wf []
+  rw [List.append_nil] at h
+  have hs := streamTagBits_spec i.keyPhase (decide (i.controlData.length > 0)) i.finalOffset.isSome
+      (decide (i.appHeader.length > 0)) i.sourceQueueId.isSome i.recovery
+  rw [← streamTagOf_eq] at hs
+  obtain ⟨_, _, hk, _, _, _, _, hr⟩ := hs
+  unfold streamCallOfWire
+  rw [h]
+  simp only [hrel, Nat.add_zero, Bool.false_or, beq_self_eq_true, if_true, streamOpenCall, bne_self_eq_false,
+    Bool.false_eq_true, if_false, hr, hk, hkp, streamSealCall, Option.isSome_none]
+  cases hrec : i.recovery with
+  | false => simp [Except.toOption]
+  | true => simp [hprobe hrec, Except.toOption]
+
+theorem encode_length_le (x : Nat) : (VarInt.encode x).length ≤ 8 := by
+  rw [Quic.Proofs.C05.varint_size, VarInt.encodingSize, Quic.Proofs.C05.lookup_cases]
+  repeat' split
+  all_goals simp
+
+theorem streamTagBits_clear_recovery (kp cd fin ah sq rec : Bool) :
+    streamTagBits kp cd fin ah sq rec &&& (255 - StreamTag.isRecovery) = streamTagBits kp cd fin ah sq false := by
+  cases kp <;> cases cd <;> cases fin <;> cases ah <;> cases sq <;> cases rec <;> decide
+
+theorem normalize_slices (t : Nat) (A W B : List Nat) (hW : W.length = 4) :
+    normalizeRetransmit ([t] ++ A ++ W ++ B) (1 + A.length)
+      = [t &&& (255 - StreamTag.isRecovery)] ++ A ++ [0, 0, 0, 0] ++ B := by
+  unfold normalizeRetransmit
+  simp only [List.cons_append, List.nil_append, List.append_assoc]
+  have e1 : ((t &&& (255 - StreamTag.isRecovery)) :: (A ++ (W ++ B)))
+      = ((t &&& (255 - StreamTag.isRecovery)) :: A) ++ (W ++ B) := by simp
+  have l1 : ((t &&& (255 - StreamTag.isRecovery)) :: A).length = 1 + A.length := by simp; omega
+  have e2 : ((t &&& (255 - StreamTag.isRecovery)) :: (A ++ (W ++ B)))
+      = (((t &&& (255 - StreamTag.isRecovery)) :: A) ++ W) ++ B := by simp
+  have l2 : (((t &&& (255 - StreamTag.isRecovery)) :: A) ++ W).length = 1 + A.length + 4 := by
+    simp [hW]; omega
+  have hmin : min 4 (((t &&& (255 - StreamTag.isRecovery)) :: (A ++ (W ++ B))).length - (1 + A.length)) = 4 := by
+    simp [hW]; omega
+  have ht : ((t &&& (255 - StreamTag.isRecovery)) :: (A ++ (W ++ B))).take (1 + A.length)
+      = (t &&& (255 - StreamTag.isRecovery)) :: A := by rw [e1, ← l1, take_append_len]
+  have hd : ((t &&& (255 - StreamTag.isRecovery)) :: (A ++ (W ++ B))).drop (1 + A.length + 4) = B := by
+    rw [e2, ← l2, drop_append_len]
+  rw [hmin, ht, hd]
+  simp [List.replicate]
+
+theorem encOptVarint_length_le (o : Option Nat) : (encOptVarint o).length ≤ 8 := by
+  cases o with
+  | none => simp [encOptVarint]
+  | some x => exact encode_length_le x
+
+theorem normalize_header (i : StreamIn) (wf : StreamWF i) (hrel : i.streamId.reliable = true) :
+    normalizeRetransmit (encStreamHeader i) (rpnOffsetOf i)
+      = encStreamHeader { i with recovery := false, relOffset := 0 } := by
+  have hA : ∃ A B, encStreamHeader i = [streamTagOf i] ++ A ++ beBytes 4 i.relOffset ++ B
+      ∧ encStreamHeader { i with recovery := false, relOffset := 0 }
+          = [streamTagOf { i with recovery := false, relOffset := 0 }] ++ A ++ [0, 0, 0, 0] ++ B
+      ∧ rpnOffsetOf i = (1 + A.length) % 256 ∧ A.length ≤ 51 := by
+    refine ⟨encCreds i.creds ++ [0] ++ [0, 0] ++ VarInt.encode i.streamId.toVarint ++ encOptVarint i.sourceQueueId
+        ++ VarInt.encode i.pn,
+      VarInt.encode i.nect ++ VarInt.encode i.offset ++ encOptVarint i.finalOffset
+        ++ (if i.controlData.length > 0 then VarInt.encode i.controlData.length else [])
+        ++ VarInt.encode i.payload.length
+        ++ (if i.appHeader.length > 0 then VarInt.encode i.appHeader.length else []) ++ i.appHeader ++ i.controlData,
+      ?_, ?_, ?_, ?_⟩
+    · simp [encStreamHeader, encStreamFixed, hrel]
+    · simp [encStreamHeader, encStreamFixed, hrel, beBytes]
+    · simp [rpnOffsetOf, List.length_append]; omega
+    · have h1 := encode_length_le i.creds.keyId
+      have h2 := encode_length_le i.streamId.toVarint
+      have h3 := encOptVarint_length_le i.sourceQueueId
+      have h4 := encode_length_le i.pn
+      have h5 := wf.id
+      unfold credIdLen at h5
+      simp [encCreds, List.length_append]; omega
+  obtain ⟨A, B, e1, e2, e3, e4⟩ := hA
+  have hoff : rpnOffsetOf i = 1 + A.length := by rw [e3]; omega
+  rw [e1, e2, hoff, normalize_slices _ A _ B (by simp [beBytes])]
+  congr 3
+  rw [streamTagOf_eq, streamTagOf_eq, streamTagBits_clear_recovery]
+
+/-- a packet sealed by `encode` and then retransmitted (`retransmit`: offset k > 0, either packet
+    space) is accepted: the receiver removes the mask, clears the recovery bit, zeroes the offset
+    and lands on exactly the call the sealer made -/
+theorem genuine_accepted_stream_retx (i : StreamIn) (wf : StreamWF i) (hkp : i.keyPhase = false)
+    (hrel : i.streamId.reliable = true) (hk : i.relOffset > 0) :
+    streamCallOfWire true (encodeStream i) = some (streamSealCall i (some (i.pn, i.pn + i.relOffset))) := by
+  have h := decodeStream_encode i wf []
+  rw [List.append_nil] at h
+  have hs := streamTagBits_spec i.keyPhase (decide (i.controlData.length > 0)) i.finalOffset.isSome
+      (decide (i.appHeader.length > 0)) i.sourceQueueId.isSome i.recovery
+  rw [← streamTagOf_eq] at hs
+  obtain ⟨_, _, hkb, _, _, _, _, _⟩ := hs
+  have hne : (i.pn != i.pn + i.relOffset) = true := by simp; omega
+  unfold streamCallOfWire
+  rw [h]
+  simp only [Bool.true_or, if_true, streamOpenCall, hne, normalize_header i wf hrel, Bool.false_eq_true, if_false,
+    hkb, hkp, streamSealCall, Option.isSome_some, Except.toOption]
+
 end Quic.Proofs.DcPackets
